@@ -205,6 +205,23 @@ let run_line lineno line =
        let out = Model.visits q sh cs in
        Printf.printf "%d [%s]\n" lineno (join (fun (k, (id, code)) -> Printf.sprintf "[%s,%s,%s]" (zs k) (zs id) (zs code)) out)
      | [] -> failwith "nn")
+  | "knn" :: k :: nr :: rest ->
+    (* knn k nrings (rb ngroups (lb nmembers (key id)* )* )* : Model.knn_search on the rings of one query *)
+    let rec members m l acc = if m = 0 then (List.rev acc, l) else
+        (match l with ky :: id :: l -> members (m - 1) l ((z ky, nat_of_int (int_of_string id)) :: acc) | _ -> failwith "knn members") in
+    let rec groups g l acc = if g = 0 then (List.rev acc, l) else
+        (match l with lb :: nm :: l ->
+           let ms, l = members (int_of_string nm) l [] in
+           groups (g - 1) l ({ Model.glb = z lb; Model.gmembers = ms } :: acc)
+         | _ -> failwith "knn group") in
+    let rec rings r l acc = if r = 0 then List.rev acc else
+        (match l with rb :: ng :: l ->
+           let gs, l = groups (int_of_string ng) l [] in
+           rings (r - 1) l ((z rb, gs) :: acc)
+         | _ -> failwith "knn ring") in
+    let rs = rings (int_of_string nr) rest [] in
+    let out = Model.knn_search (nat_of_int (int_of_string k)) rs in
+    Printf.printf "%d [%s]\n" lineno (join (fun (ky, id) -> Printf.sprintf "[\"%s\",%d]" (zs ky) (int_of_nat id)) out)
   | "insphere_sweep" :: k :: off :: ai :: _ ->
     let k = int_of_string k and off = z off and ai = int_of_string ai in
     let pt i =
